@@ -81,7 +81,7 @@ def run(chk):
     chk.not_decided += ["that NLopt honours the box", "finiteness of coefficients and non-negative finite uncertainty (runtime)", "that reduce_model never emits a numerically zero slope for particular floats"]
     r1 = chk.rule("R12.1", "bounds tables agree with coefficient order and kinds; update-bounds index constants point at coefficients of the stated kind", 20)
     r2 = chk.rule("R12.2", "objective arity/ordering: model / weight / TSS functions take the coefficients in coef_id order, followed by the fixed tails", 12)
-    r3 = chk.rule("R12.3", "declared type <=> coefficients present at every ModelCoefficients construction; reduce_model: shape <=> non-zero slopes, heating <=> negative single slope", 60)
+    r3 = chk.rule("R12.3", "declared type <=> coefficients present at every ModelCoefficients construction; reduce_model: shape <=> non-zero slopes, heating <=> negative single slope (exhaustive abstract domain)", 2000)
     r4 = chk.rule("R12.4", "recorded temperature limits: keys written == keys read; sourced from the component's own T through get_T_bnds", 5)
     r5 = chk.rule("R12.5", "scored curve = stored curve: the order of coefficient transforms (swap / smooth / kernel) agrees between the scoring path and the read-back path", 2)
 
@@ -295,11 +295,21 @@ def run(chk):
         def exp(x):
             return math.exp(x)
     n_states = 0
-    vals_bp = {"lo": 30.0, "mid1": 50.0, "mid2": 60.0, "hi": 80.0}
-    for hb, cb, hk, ck in itertools.product([0.0, 1.5], [0.0, 2.5], [0.0, 0.25], [0.0, 0.35]):
+    # abstract domain: every total pre-order of {hdd_bp, cdd_bp, T_min_seg, T_max_seg} with T_min_seg < T_max_seg and hdd_bp <= cdd_bp
+    # (fix_full_model_x orders the balance points before reduce_model is called), slopes in {0, non-zero}, smoothing fractions in
+    # {0, below the 0.01 cut-off of get_smooth_coeffs, ordinary}, every model key.  reduce_model / get_k / get_smooth_coeffs branch on
+    # nothing else, so one representative per class is exhaustive.
+    from rules.c11 import weak_orders
+    placements = []
+    for order in weak_orders(["hdd_bp", "cdd_bp", "T_min_seg", "T_max_seg"]):
+        if order["T_min_seg"] >= order["T_max_seg"] or order["hdd_bp"] > order["cdd_bp"]:
+            continue
+        v = {k: 20.0 + 15.0 * r for k, r in order.items()}
+        placements.append((v["hdd_bp"], v["cdd_bp"], v["T_min_seg"], v["T_max_seg"]))
+    for hb, cb, hk, ck in itertools.product([0.0, 1.5], [0.0, 2.5], [0.0, 0.005, 0.25], [0.0, 0.005, 0.35]):
         for model_key in ("hdd_tidd_cdd_smooth", "hdd_tidd_cdd", "c_hdd_tidd_smooth", "c_hdd_tidd", "tidd"):
-            for hbp, cbp in ((50.0, 60.0), (30.0, 60.0), (50.0, 80.0), (80.0, 80.0), (30.0, 30.0), (85.0, 90.0), (20.0, 25.0)):
-                T_min, T_max, T_min_seg, T_max_seg = 25.0, 85.0, 30.0, 80.0
+            for hbp, cbp, T_min_seg, T_max_seg in placements:
+                T_min, T_max = T_min_seg - 5.0, T_max_seg + 5.0
                 it = Interp(step_limit=20000)
                 env = Env()
                 env.set("np", NPs())
